@@ -130,8 +130,8 @@ def verify(v, case, env, exp_calls, res, folder, log, cfg, w):
     return ok, order
 
 
-def run_cfg(v, case, env, exp_calls, scratch, entry, exname, st, idx, dseed, orders, piece=None):
-    cfg = f"{entry}/{exname}/{st}" + ("/pieces" if piece else "")
+def run_cfg(v, case, env, exp_calls, scratch, entry, exname, st, idx, dseed, orders, piece=None, reuse=False):
+    cfg = f"{entry}/{exname}/{st}" + ("/pieces" if piece else "") + ("/reused-executor" if reuse else "")
     w = dict(case=mapgen.describe(case), cfg=cfg, delay_seed=dseed, first_piece=str(piece))
     log = probes.new_log(scratch)
     fault = {f["name"]: {"delay": [dseed, 3]} for f in case["funcs"]} if dseed else None
@@ -168,6 +168,12 @@ def run_cfg(v, case, env, exp_calls, scratch, entry, exname, st, idx, dseed, ord
         kw = dict(run_folder=folder, internal_shapes=mapgen.internal_shapes_arg(case), storage=storage)
         inputs = mapgen.make_inputs(case)
         with quiet():
+            if reuse:
+                # the SAME executor object (its worker processes / threads stay alive) first serves another map with other
+                # input values into the same folder; nothing of that run may leak into the run that is judged
+                pipeline.map(mapgen.variant_inputs(inputs, "~first"), executor=ex, parallel=True, **kw)
+                probes.log_clear(log)
+                v.count("runs_on_a_reused_executor")
             if piece:
                 # the same executor first computes a PART of the map (every second index of one axis); the full run that
                 # follows finds scattered stored elements and must compute exactly the rest
@@ -317,8 +323,9 @@ def run_case(desc):
             rng = random.Random(f"c03:{desc['seed']}:{i}")
             chosen = rng.sample(cfgs, 9)
             for dseed in desc["delay_seeds"]:
-                for entry, exname, st in chosen:
-                    run_cfg(v, case, env, exp_calls, scratch, entry, exname, st, i, dseed, orders)
+                for n_, (entry, exname, st) in enumerate(chosen):
+                    run_cfg(v, case, env, exp_calls, scratch, entry, exname, st, i, dseed, orders,
+                            reuse=(exname in ("thread", "process", "audited") and (n_ + i) % 3 == 0))
             v.count("distinct_completion_orders", len(orders))
             if gens >= 2:
                 keys = [mapgen.signature(case) + f"|pools|{c}" for c in chosen]
@@ -358,6 +365,8 @@ def finalize(agg, tier, seed):
     total = c.get("cases", 0) + c.get("skipped_sequential_baseline_refused", 0)
     if total and c.get("skipped_sequential_baseline_refused", 0) * 3 > total:
         floors.append("more than a third of the cases skipped because the sequential baseline is refused (see C01)")
+    if c.get("runs_on_a_reused_executor", 0) < 30:
+        floors.append(f"only {c.get('runs_on_a_reused_executor', 0)} runs on an executor that already served another map (< 30)")
     if c.get("pieces_first_runs", 0) < 50:
         floors.append(f"only {c.get('pieces_first_runs', 0)} runs in pieces under pools (< 50)")
     if c.get("runs:process:mixm", 0) < 5:
